@@ -29,7 +29,7 @@ def cg (A : Array Vec) (b x0 : Vec) (tol2 : Rat) (maxiter : Nat) : Res :=
       let Ap := matvec A p
       let pAp := dot Ap p
       if pAp < 0 then ⟨x, -1, nres, log⟩ else
-      if pAp = 0 then ⟨x, -98, nres, log⟩ else      -- 0/0 or x/0: NaN/Inf in the implementation
+      if pAp = 0 then ⟨x, -1, nres, log⟩ else       -- vanishing search direction: breakdown exit
       let α := rz / pAp
       let x := axpy α p x
       let r := if it % 8 ≠ 0 ∧ it > 0 then axpy (-α) Ap r else sub b (matvec A x)
